@@ -48,7 +48,8 @@ STRONG_SPEC = {"max", "min", "saturating_sub", "saturating_add", "checked_sub", 
                "len", "is_empty", "push", "extend_from_slice", "contains_key", "contains", "insert", "is_some", "is_none",
                "is_ok", "is_err", "unwrap_or", "Some", "Ok", "Err", "None", "if", "match", "let", "return", "for", "while",
                "usize::from", "u64::from", "u32::from", "u16::from", "u128::from", "Vec::from", "to_vec",
-               "vec!", "Vec::new", "Vec::with_capacity", "BTreeMap::new"}
+               "vec!", "Vec::new", "Vec::with_capacity", "BTreeMap::new",
+               "entry", "or_insert_with"}    # the last two: only in the statement form that rule R28 rewrites
 
 OFFLINE_ENV = {"CARGO_NET_OFFLINE": "true"}
 
